@@ -49,6 +49,20 @@ static const pat_t T[] = {
     {"req_multipart_part_folded", "POST / HTTP/1.1\r\nHost: h\r\nContent-Type: multipart/form-data; boundary=BB\r\nTransfer-Encoding: chunked\r\n\r\nc\r\n--BB\r\nA: b\r\n\r\n", "9\r\n c%05d\r\n\r\n", "37\r\nContent-Disposition: form-data; name=\"f\"\r\n\r\nv\r\n--BB--\r\n\r\n0\r\n\r\n", 0, 0},
     {"res_trailer_lines", "HTTP/1.1 200 OK\r\nTransfer-Encoding: chunked\r\n\r\n1\r\nx\r\n0\r\n", "T: v%d\r\n", "\r\n", 1, 0},
     {"req_trailer_lines", "POST / HTTP/1.1\r\nHost: h\r\nTransfer-Encoding: chunked\r\n\r\n1\r\nx\r\n0\r\n", "T: v%d\r\n", "\r\n", 0, 0},
+    /* separator / whitespace runs inside the values the parser tokenises (round-5 seed C08e: the Content-Encoding token loop re-scanned a run of separators) */
+    {"res_ce_separator_run", "HTTP/1.1 200 OK\r\nContent-Length: 0\r\nContent-Encoding: ", ",", "none\r\n\r\n", 1, 1},
+    {"res_ce_space_run", "HTTP/1.1 200 OK\r\nContent-Length: 0\r\nContent-Encoding: ", " ", "none\r\n\r\n", 1, 1},
+    {"res_ce_separators_after_token", "HTTP/1.1 200 OK\r\nContent-Length: 0\r\nContent-Encoding: gzip", ", ", "none\r\n\r\n", 1, 1},
+    {"res_ce_unknown_tokens", "HTTP/1.1 200 OK\r\nContent-Length: 0\r\nContent-Encoding: ", "x%d,", "none\r\n\r\n", 1, 1},
+    {"req_cookie_separator_run", "GET / HTTP/1.1\r\nHost: h\r\nCookie: a=1", ";", " b=2\r\n\r\n", 0, 1},
+    {"req_cookie_space_run", "GET / HTTP/1.1\r\nHost: h\r\nCookie: a=1;", " ", "b=2\r\n\r\n", 0, 1},
+    {"req_query_separator_run", "GET /?a=1", "&", "b=2 HTTP/1.1\r\nHost: h\r\n\r\n", 0, 1},
+    {"req_ct_boundary_spaces", "POST / HTTP/1.1\r\nHost: h\r\nContent-Length: 0\r\nContent-Type: multipart/form-data;", " ", "boundary=BB\r\n\r\n", 0, 1},
+    {"req_te_space_run", "POST / HTTP/1.1\r\nHost: h\r\nTransfer-Encoding:", " ", "chunked\r\n\r\n0\r\n\r\n", 0, 1},
+    {"req_host_space_run", "GET / HTTP/1.1\r\nHost: h", " ", "\r\n\r\n", 0, 1},
+    {"req_auth_digest_spaces", "GET / HTTP/1.1\r\nHost: h\r\nAuthorization: Digest username=", " ", "\"u\"\r\n\r\n", 0, 1},
+    {"req_auth_basic_spaces", "GET / HTTP/1.1\r\nHost: h\r\nAuthorization: Basic", " ", "dTpw\r\n\r\n", 0, 1},
+    {"res_cl_space_run", "HTTP/1.1 200 OK\r\nContent-Length:", " ", "0\r\n\r\n", 1, 1},
 };
 #define NT (sizeof T / sizeof *T)
 static char *big; static size_t bigcap = 1 << 24;
